@@ -3,6 +3,7 @@
   Theorems about `resolveDirective "model"`, `vmodelStep`, `nModelListener`, `decoupleVModels` of the model.
 -/
 import VueJsx.Visitor
+import VueJsx.Sem
 
 namespace VueJsx
 
@@ -134,5 +135,15 @@ theorem C05_unassignable_target_reported (cas : List String) (e : Node) (isComp 
       · rfl
     · rename_i hh; exact absurd rfl (hh _ _)
   simp [parseVModel, hc, harr, hx]
+
+/-- `eval` and `arguments` cannot be assigned to in a module (strict code): not v-model targets - reported by
+    `C05_unassignable_target_reported`. -/
+theorem C05_eval_arguments_not_targets (as : List String) (ks : List Node) :
+    isAssignmentTarget (.mk .ident ("eval" :: as) ks) = false ∧ isAssignmentTarget (.mk .ident ("arguments" :: as) ks) = false := by
+  simp [isAssignmentTarget]
+
+/-- the specification's notion of an assignment target (`Sem.specAssignable`, written from ECMA-262) is the model's -/
+theorem C05_spec_assignable_is_the_models (n : Node) : specAssignable n = isAssignmentTarget n := by
+  fun_induction isAssignmentTarget n <;> simp_all [specAssignable]
 
 end VueJsx
